@@ -576,14 +576,16 @@ def kinds_table(repo):
 def hdf5_truncates(repo):
     """Export.hdf5 limits the selection to the shortest feature (so features
     and mask may differ in length)"""
-    f = repo.func(EXP, "Export.hdf5")
-    for n in walk(f):
-        if isinstance(n, ast.Assign) and isinstance(
-                n.targets[0], ast.Subscript) and isinstance(
-                n.targets[0].slice, ast.Slice) and isinstance(
-                n.value, ast.Constant) and n.value.value is False \
-                and n.targets[0].slice.lower is not None:
-            return True
+    # (in Export.hdf5 itself or in a helper of the module it delegates to)
+    repo.func(EXP, "Export.hdf5")
+    for q, f in repo.all_functions(EXP):
+        for n in walk(f):
+            if isinstance(n, ast.Assign) and isinstance(
+                    n.targets[0], ast.Subscript) and isinstance(
+                    n.targets[0].slice, ast.Slice) and isinstance(
+                    n.value, ast.Constant) and n.value.value is False \
+                    and n.targets[0].slice.lower is not None:
+                return True
     return False
 
 
@@ -734,18 +736,29 @@ def r23(ctx, repo, feats):
                    node=f, label=f"truncated export, short feature "
                                  f"({k})")
     ctx.stat("R2.3 export evaluations", n_eval)
-    # duplicates / order of the feature list do not matter
-    try:
-        hw, ds, _ = run_hdf5(repo, feats, "hdf5", MASKS5[3], True, {},
-                             features=[SCALAR_SAMPLE, stack_name,
-                                       SCALAR_SAMPLE])
-        bad = compare(hw, SCALAR_SAMPLE, "scalar", [0, 2, 3]) or compare(
-            hw, stack_name, "stack", [0, 2, 3])
-        others = {c[0] for c in hw.calls} - {SCALAR_SAMPLE, stack_name}
-        if others:
-            bad = f"features not requested were exported: {sorted(others)}"
-    except ModelFault as e:
-        bad = str(e)
+    # duplicates / order of the feature list do not matter – with and
+    # without the length checks, filtered and unfiltered
+    bad = None
+    for skip in (False, True):
+        for filtered, sel in ((True, [0, 2, 3]), (False, [0, 1, 2, 3, 4])):
+            tag = f"skip_checks={skip}, filtered={filtered}: "
+            try:
+                hw, ds, _ = run_hdf5(repo, feats, "hdf5", MASKS5[3],
+                                     filtered, {}, skip_checks=skip,
+                                     features=[SCALAR_SAMPLE, stack_name,
+                                               SCALAR_SAMPLE, stack_name])
+                b = compare(hw, SCALAR_SAMPLE, "scalar", sel) or compare(
+                    hw, stack_name, "stack", sel)
+                others = {c[0] for c in hw.calls} - {SCALAR_SAMPLE,
+                                                     stack_name}
+                if others:
+                    b = (f"features not requested were exported: "
+                         f"{sorted(others)}")
+                if b:
+                    bad = bad or (tag + b + " (a feature named twice in the "
+                                  "request is written twice)")
+            except ModelFault as e:
+                bad = bad or tag + str(e)
     ctx.ob("R2.3", bad is None,
            "a feature listed twice is exported once; only requested features "
            "are exported" if bad is None else
@@ -1665,5 +1678,43 @@ MUTANTS = list(MUTANTS) + [
        "        if invalid is None:\n"
        '            raise ValueError(f"Invalid feature name {invalid}")\n'),
       ("        features = [c.lower() for c in features]\n", "")], "R2.4"),
+]
+
+
+def _limit_helper_twin(src):
+    """the block that limits the selection to the shortest feature moved
+    verbatim into a module-level helper; Export.hdf5 delegates"""
+    start = src.index("            # check that all features have same length")
+    end = src.index("                    LimitingExportSizeWarning)\n",
+                    start) + len("                    "
+                                 "LimitingExportSizeWarning)\n")
+    block = src[start:end]
+    body = "\n".join(line[8:] if line.startswith("        ") else line
+                     for line in block.split("\n"))
+    helper = ("def _limit_filter_to_common_length(ds, features, "
+              "filter_arr):\n" + body + "    return filter_arr\n\n\n")
+    new = (src[:start]
+           + "            filter_arr = _limit_filter_to_common_length(\n"
+             "                ds, features, filter_arr)\n" + src[end:])
+    return new.replace("def yield_filtered_array_stacks(data, indices):",
+                       helper + "def yield_filtered_array_stacks(data, "
+                       "indices):")
+
+
+TWINS = list(TWINS) + [
+    ("hdf5: limiting block in a module-level helper", EXP,
+     _limit_helper_twin),
+]
+
+MUTANTS = list(MUTANTS) + [
+    ("hdf5: duplicates removed only when the lengths are checked (seeded)",
+     EXP,
+     ("        features = sorted(set(features))\n"
+      "        if not skip_checks and features:\n",
+      "        if not skip_checks and features:\n"
+      "            features = sorted(set(features))\n"), "R2.3"),
+    ("hdf5: limiting branch off by one", EXP,
+     ("                filter_arr[l_min:] = False",
+      "                filter_arr[l_min - 1:] = False"), "R2.3"),
 ]
 
